@@ -6,7 +6,7 @@ is a term over the counter's old value; it is decomposed into a signed sum ("lin
 from collections import defaultdict
 from .core import RuleResult, CheckFailure
 from .roles import ev_is, wrapper_kind, write_scheduler
-from .roles import CHAN_RECV
+from .roles import CHAN_RECV, recv_types
 from .roles import named
 from .kernel import norm
 from .roles import get_roles, HASHMAP_REMOVE, DASHMAP_REMOVE
@@ -24,6 +24,10 @@ def lin(t, sign=1):
         if t[0] == 'bin' and t[1] in SUB_OPS:
             return lin(t[2], sign) + lin(t[3], -sign)
         if t[0] == 'cast':
+            # only value-preserving (unsigned, widening) casts are transparent: through a signed or narrower type a difference does not
+            # stay the difference (u32 delta `as i32` flips its sign from 2^31 on)
+            if len(t) > 2 and str(t[2]) in ('i8', 'i16', 'i32', 'i64', 'i128', 'isize', 'u8', 'u16'):
+                return [(sign, t)]
             return lin(t[1], sign)
         if t[0] == 'c' and t[1] == 0:
             return []
@@ -75,7 +79,7 @@ def _paths(ctx, nid, **kw):
     key = ('flowpaths', nid, tuple(sorted(kw.items())))
     if key in ctx.cache:
         return ctx.cache[key]
-    sx = ctx.symex(inline_depth=kw.get('depth', 3), loop_visits=2)
+    sx = ctx.symex(inline_depth=kw.get('depth', 5), loop_visits=2)
     try:
         ps = [p for p in sx.run(nid) if not p.diverged]
     except PathLimit:
@@ -320,10 +324,10 @@ def rule_flow_unsync(ctx):
                 if same_weight and ws is None:
                     continue
                 if not (sub_old and add_new and same):
-                    pend(nid, 'update-weight', 'weighted_size', 'an in-place update does not apply  -old_weight +new_weight  with the weight it stores in the entry',
+                    r.violate(nid, 'update-weight', 'weighted_size', 'an in-place update does not apply  -old_weight +new_weight  with the weight it stores in the entry',
                               where=ctx.where(nid), expected='weighted_size = weighted_size - old.policy_weight + new_weight; entry.policy_weight = new_weight')
                 if ec is not None:
-                    pend(nid, 'update-count', 'entry_count', 'an in-place update changes entry_count', where=ctx.where(nid))
+                    r.violate(nid, 'update-count', 'entry_count', 'an in-place update changes entry_count', where=ctx.where(nid))
     def interesting(nid):
         reach_ext = set()
         for x in prog.reachable_from([nid]):
@@ -478,6 +482,16 @@ def rule_flow_sync(ctx):
     if SYNC_INNER + '::handle_upsert' not in prog.bodies and not any(n.startswith('sync::') for n in prog.bodies):
         return r
     R = get_roles(ctx)
+    if True:
+        from .roles import upsert_fields as _uf
+        fl = _uf(ctx)
+        if fl and not {'old_weight', 'new_weight'} <= set(fl):
+            # the op no longer fixes both weights when it is created: whatever is read later (the shared EntryInfo) has been overwritten by
+            # the ops queued after it
+            r.violate('common::concurrent::WriteOp', 'op-weights-missing', 'Upsert', 'WriteOp::Upsert carries %s: an upsert must record BOTH the replaced weight and its own new weight at the '
+                      'time it is created -- ops of one key are applied later, in order, and each must apply exactly its own delta' % [f for f in fl if 'weight' in f],
+                      expected='Upsert { key_hash, value_entry, old_weight, new_weight }')
+            return r
     # remove-role functions
     roles = {}
     for nid, b in prog.bodies.items():
@@ -642,8 +656,7 @@ def rule_flow_sync(ctx):
                     r.violate(inv, 'remove-op-not-queued', 'WriteOp::Remove', 'invalidate removes the entry from the map but does not queue WriteOp::Remove for it: '
                               'its weight, count and deque nodes are never given back', where=ctx.where(inv))
     # the Remove arm of the consumer passes the entry to the remove role
-    cons = [n for n in prog.bodies if n.startswith(SYNC_INNER) and bool(CHAN_RECV & set(R.ext_calls[n])) and
-            any('WriteOp' in t.get('self_ty', {}).get('s', '') for _, t in prog.bodies[n].calls() if prog.call_targets(prog.bodies[n], t)[1] in CHAN_RECV)]
+    cons = [n for n in prog.bodies if n.startswith(SYNC_INNER) and prog.bodies[n].kind != 'closure' and 'WriteOp' in recv_types(ctx, n)]
     for cn in cons:
         callees = prog.callees(cn)
         ok = bool(callees & set(roles)) and nid in callees
@@ -652,6 +665,63 @@ def rule_flow_sync(ctx):
             r.violate(cn, 'consumer-arms', 'WriteOp', 'the write-op consumer does not dispatch Upsert to the upsert role and Remove to the remove role', where=ctx.where(cn))
     if not cons:
         raise CheckFailure('FLOW-counters(sync): write-op consumer not found')
+    # counted weight == shared weight at removal: the remove role gives back `entry.policy_weight()`, the weight in the EntryInfo shared by all
+    # versions of the key.  insert() overwrites it when an update is *created*, the counters follow only when the update op is *applied*.  So an
+    # entry that maintenance itself picks for removal (admission victim, LRU eviction) must not have an update pending (dirty); an expiry
+    # predicate evaluated on the map's current value is exempt (a current value that is expired / invalidated has no newer write).
+    from .rules_live import literals_of, classify_literal
+    nsites = 0
+    for fn_ in sorted(n_ for n_ in prog.bodies if n_.startswith(SYNC_INNER + '::') and prog.bodies[n_].kind != 'closure'):
+        bf = prog.bodies[fn_]
+        sites = [(bi_, t_) for bi_, t_ in bf.calls() if prog.call_targets(bf, t_)[1] == 'dashmap::DashMap::remove_if']
+        if not sites or not (prog.reachable_from([fn_]) & set(roles)):
+            continue
+        try:
+            fpaths = [p for p in ctx.symex(inline_depth=2, loop_visits=2, inline_pred=lambda n_, bb, d: False if n_ in roles else None).run(fn_) if not p.diverged]
+        except PathLimit:
+            raise CheckFailure('FLOW-counters(sync): path limit in %s' % fn_)
+        for bi_, t_ in sites:
+            _tg, _ext, passed_ = prog.call_targets(bf, t_)
+            clo_ = passed_[0] if passed_ else None
+            pred_dirty = pred_expiry = False
+            if clo_:
+                tr_paths = 0
+                dirty_ok = True
+                for cp in ctx.symex(inline_depth=5).run(clo_):
+                    if cp.diverged or cp.ret == ('c', False):
+                        continue
+                    lits_ = literals_of(cp.conds, [] if cp.ret == ('c', True) else [(cp.ret, True)])
+                    tr_paths += 1
+                    if not any(v_ is False and 'is_dirty' in fmt(t2) for t2, v_ in lits_):
+                        dirty_ok = False
+                    if any((classify_literal(t2, v_) or {}).get('what') in ('deadline', 'watermark') for t2, v_ in lits_):
+                        pred_expiry = True
+                pred_dirty = bool(tr_paths) and dirty_ok
+            # does the removed entry reach a remove role at all (on some path)?  and is a not-dirty fact established before the removal?
+            feeds = False
+            path_dirty = True
+            for p in fpaths:
+                evs = p.events
+                for i_, e_ in enumerate(evs):
+                    if e_[0] == 'call' and e_[1] == 'dashmap::DashMap::remove_if' and e_[3] == t_.get('line'):
+                        res_ = e_[6] if len(e_) > 6 else None
+                        if any(ev2[0] == 'call' and ev2[1] in roles and any(any(y == res_ for y in subterms(a_)) for a_ in ev2[2]) for ev2 in evs[i_ + 1:]):
+                            feeds = True
+                            if not any(v_ is False and 'is_dirty' in fmt(c_) for c_, v_ in p.conds):
+                                path_dirty = False
+            if not feeds:
+                continue
+            nsites += 1
+            ok_ = pred_dirty or pred_expiry or path_dirty
+            r.instance(function=fn_, removal='remove_if@%s' % t_.get('line'), feeds_remove_role=True, predicate_requires_not_dirty=pred_dirty,
+                       expiry_predicate_on_current_value=pred_expiry, not_dirty_established_before=path_dirty, ok=ok_)
+            if not ok_:
+                r.violate(fn_, 'removal-of-pending-update', 'remove_if', '%s removes an entry it selected itself and hands it to the remove role, which subtracts the entry\'s shared '
+                          'weight, without establishing that no update of that entry is pending (is_dirty == false): with a queued update the shared weight is already the new one '
+                          'while the counters still hold the old one -- weighted_size drifts for good' % fn_, where=ctx.where(fn_, t_.get('line')),
+                          expected='remove_if(key, |_, v| <identity> && !v.is_dirty())  (as the LRU eviction skips dirty entries)')
+    if nsites < 2 and not r.violations:
+        raise CheckFailure('FLOW-counters(sync): only %d maintenance removal site(s) feeding the remove role found' % nsites)
     # FLOW-op-weights: what a write op carries is fixed when it is created, under the lock of the key's map slot
     root = named(ctx, 'sync.do_insert')
     if root in prog.bodies:
